@@ -45,6 +45,18 @@ MC = {
                      "cfg": dec_cfg("TokCAP", "FirstCAP", 2, ["TypeOK", "CapacityRule", "CapRespect", "Resync", "Tiles"],
                                     caps=q("CapsQuick", "CapsThorough"), paylen=q(4, 8))},
     "frame_rle": {"module": "MC_FrameRle", "workers": 2, "cfg": "INIT Init\nNEXT Next\nINVARIANT Agree\nCONSTANTS\n  PayBytes = {27, 0, 85, 1}\n  PayLen = 6\nCHECK_DEADLOCK FALSE\n"},
+    "arraybuf": {"module": "MC_ArrayBuf",
+                 "cfg": lambda tier: "SPECIFICATION Spec\nCONSTANTS\n  Caps = {0, 1, 2, 3}\n  ByteVals = {0, 1}\n  MaxOps = %d\n  MaxSlice = %d\n  EmitJson = FALSE\n"
+                                     "INVARIANT Refines\nINVARIANT SameResult\nINVARIANT ViewOnly\nCHECK_DEADLOCK FALSE\n" % ((5, 2) if tier == "thorough" else (4, 2))},
+    "reader_faults_1": {"module": "MC_Reader", "workers": 2,
+                        "cfg": lambda tier: "SPECIFICATION Spec\nCONSTANTS\n  MatcherFallback = \"kmp\"\n  DiscWidth = 0\n  BaseId = 1\n  MaxFaults = %d\n  Cap = 1073741824\n"
+                                            "INVARIANT FaultsOK\nINVARIANT LoopsAgree\nCHECK_DEADLOCK FALSE\n" % (2 if tier == "thorough" else 1)},
+    "reader_faults_2": {"module": "MC_Reader", "workers": 2,
+                        "cfg": lambda tier: "SPECIFICATION Spec\nCONSTANTS\n  MatcherFallback = \"kmp\"\n  DiscWidth = 0\n  BaseId = 2\n  MaxFaults = %d\n  Cap = 1073741824\n"
+                                            "INVARIANT FaultsOK\nINVARIANT LoopsAgree\nCHECK_DEADLOCK FALSE\n" % (2 if tier == "thorough" else 1)},
+    "reader_faults_3": {"module": "MC_Reader", "workers": 2,
+                        "cfg": lambda tier: "SPECIFICATION Spec\nCONSTANTS\n  MatcherFallback = \"kmp\"\n  DiscWidth = 0\n  BaseId = 3\n  MaxFaults = %d\n  Cap = 1073741824\n"
+                                            "INVARIANT FaultsOK\nINVARIANT LoopsAgree\nCHECK_DEADLOCK FALSE\n" % (2 if tier == "thorough" else 1)},
     "encoders": {"module": "MC_Encoder",
                  "cfg": lambda tier: "SPECIFICATION Spec\nCONSTANTS\n  PayBytes = {27, 0, 85}\n  PayLen = %d\n  ExtraCalls = 3\n"
                                      "INVARIANT NoPanicArm\nINVARIANT IterPrefix\nINVARIANT IterComplete\nINVARIANT Fused\nINVARIANT PadCounter\n"
@@ -56,6 +68,13 @@ MC = {
                         "cfg": dec_cfg("TokNOISE", "FirstNOISE", 6, ["Resync"], fallback="drop")},
     "neg_capacity_drop": {"module": "MC_Decoder", "expect": "Resync",
                           "cfg": dec_cfg("TokCAP", "FirstCAP", 2, ["Resync"], caps="CapsNeg", paylen=5, fallback="drop")},
+}
+
+GEN = {
+    # TLC prints every maximal behaviour of MC_ArrayBuf as JSON (binding B for C18)
+    "arraybuf_ops": {"module": "MC_ArrayBuf", "workers": 4,
+                     "cfg": lambda tier: "SPECIFICATION Spec\nCONSTANTS\n  Caps = {0, 1, 2, 3}\n  ByteVals = {0, 1}\n  MaxOps = %d\n  MaxSlice = 2\n  EmitJson = TRUE\n"
+                                         "INVARIANT Emit\nCHECK_DEADLOCK FALSE\n" % (4 if tier == "thorough" else 3)},
 }
 
 TRANSPORT_ASSUME = [
@@ -105,7 +124,7 @@ PROPS = {
                 steps=[{"cmd": "c14", "judge": "J_C14"}]),
     "C15": dict(T("every stream of ADV / INFRAME / NOISE, corpus dumps and mutations through 11-14 front-end configurations (push, decode, decode_streaming, SmlReader x slice/iterator/io::Read x "
                   "Vec / ArrayBuf<N>=|s| / default); records are the grouped observations"),
-                mc={"quick": [], "thorough": []},
+                mc={"quick": ["reader_faults_1"], "thorough": ["reader_faults_1", "reader_faults_2", "reader_faults_3"]},
                 steps=[{"cmd": "c15", "judge": "J_C15"}]),
     "C16": dict(T("payloads over {1b,00,55} up to length 6/8 + crafted tails + random, x every capacity 0..|m|+1 (<= 48), via Decoder<ArrayBuf<N>>, decode_streaming::<ArrayBuf<N>>, "
                   "SmlReader::with_static_buffer::<N>, each followed by an empty frame; 8 KiB default buffer with 8191/8192/8193-byte payloads"),
@@ -127,6 +146,17 @@ PROPS = {
     "C09": dict(P("the same corruption families as C04; both real parsers on every input; records de-duplicated by (allocating result, event list)"),
                 mc={"quick": [], "thorough": []},
                 steps=[{"cmd": "c09", "judge": "J_C09", "cfg": "JudgeP.cfg"}]),
+    "C10": dict({"rule": "0-3 SML files (generated with every encoding choice, or real meter payloads) framed by the harness and separated by random noise (incl. noise ending in 0x1b runs or a partial start "
+                         "sequence), read through SmlReader over slice / iterator / io::Read with the default 8 KiB, ArrayBuf<N> and Vec buffers, with per-call choices of read vs next and of "
+                         "DecodedBytes / File / Parser; each record also carries the hand composition decode_streaming + parse / Parser::new",
+                 "assumptions": PARSER_ASSUME + TRANSPORT_ASSUME[:2]},
+                mc={"quick": ["reader_faults_1"], "thorough": ["reader_faults_1", "reader_faults_2", "reader_faults_3"]},
+                steps=[{"cmd": "c10", "judge": "J_C10", "cfg": "JudgeP.cfg"}]),
+    "C11": dict(T("4 base streams (noise, frames with withheld zeros / literal escapes / re-alignment / bad checksum, cut frame, partial start sequence) x end of input at every (third) position x one fault of "
+                  "{would-block, interrupted, other} at every position x {next, read, next_nb, read_nb}; two faults exhaustively (thorough) or sampled; random 2-4 fault schedules; corpus frames with random "
+                  "schedules; each record carries the fault-free run and the fresh-reader run on the remainder"),
+                mc={"quick": ["reader_faults_1", "reader_faults_2", "reader_faults_3"], "thorough": ["reader_faults_1", "reader_faults_2", "reader_faults_3"]},
+                steps=[{"cmd": "c11", "judge": "J_C11"}]),
     "C12": dict(P("every 1- and 2-byte TLF, a strided (quick) / exhaustive (thorough) set of 3-byte TLFs, crafted 4-12 byte TLFs around 2^32 and the own-size subtraction, integers of width 0-9 with "
                   "boundary leading bytes, all boolean bytes - each at 8 field positions of a message template, observed through the streaming parser's events"),
                 mc={"quick": [], "thorough": []},
@@ -134,6 +164,11 @@ PROPS = {
     "C13": dict(P("the same corruption families as C04; next() is called until None (at most |x|+8 items) and 5 more times; record = (|x|, items, items after the end, error positions)"),
                 mc={"quick": [], "thorough": []},
                 steps=[{"cmd": "c13", "judge": "J_C13", "cfg": "JudgeP.cfg"}]),
+    "C18": dict({"rule": "operation sequences over push / extend_from_slice / truncate / clear / from_iter: every maximal behaviour TLC generates from MC_ArrayBuf (replayed into the real type), the harness' own "
+                         "exhaustive enumeration of depth 3 (4 in thorough) for N in 0..3 (and 4, Vec in thorough), random histories of up to 24 operations on N in {5,8,16,31,48,255,256} and Vec",
+                 "assumptions": ["TLC evaluates ArrayBuf.IdealObs correctly", "std's Debug for slices is the reference for the Debug clause", "capacities limited to the ArrayBuf<N> instantiations compiled into the harness"]},
+                mc={"quick": ["arraybuf"], "thorough": ["arraybuf"]},
+                steps=[{"cmd": "c18", "judge": "J_C18", "tlcgen": "arraybuf_ops"}]),
     "C17": dict(T("every stream of ADV / INFRAME / HIST / NOISE, corpus, mutations with push+finalize and SmlReader (iterator, io::Read); noise runs of 255..2^17+1 bytes; "
                   "both the overflow-checked and the wrapping (release) build; record = (length, event list)"),
                 mc={"quick": ["tiles_adv", "tiles_hist"], "thorough": ["tiles_adv", "tiles_hist", "resync_noise"]},
@@ -164,6 +199,12 @@ MANIFEST_TEXT = {
               "fault/length-bomb enumeration in worker processes + TLC-judged resource monitor (J_C06)", _NOTE_P),
     "C09": _t("TLC re-assembles the recorded events of the real streaming parser with the spec's Reassemble operator (which also enforces the event grammar) and compares with the real allocating parser's "
               "result and error kind, on the corruption families.", "5/C09", "TLC-judged differential trace validation (J_C09)", _NOTE_P),
+    "C10": _t("TLC recomputes the transmission layout from the files and noise (Frame.Canonical), the expected value of every call (payload / SmlGrammar.ParseFile / StreamParser.StreamItems of the file), the "
+              "discarded-bytes reports and the end-of-input behaviour, and compares them and the hand composition with what the real SmlReader returned for 3 sources x 3 buffer kinds x per-call target choices; "
+              "the reader loop itself is model-checked under fault schedules (MC_Reader).", "5/C10", "TLC model checking of the reader spec + TLC-judged end-to-end trace validation (J_C10)", _NOTE_P),
+    "C11": _t("TLC checks the clauses of FaultRule (transparency of would-block/interrupted, exactly-once would-block, exact count and fresh-reader continuation after other errors, None rule, byte accounting) on "
+              "the specification's reader for every placement of up to 1 (quick) / 2 (thorough) faults and every cut of 3 base streams, and judges the same clauses on ~23 k recorded schedules of the real "
+              "SmlReader over a fault-injecting io::Read for all four APIs.", "5/C11", "TLC model checking under fault schedules + TLC-judged trace validation (J_C11)"),
     "C12": _t("TLC compares the real streaming parser's events on ~626 k crafted messages (all 1- and 2-byte TLFs, 3-byte TLFs, 4-12 byte TLFs around 2^32, integers of every width with boundary leading bytes, "
               "all boolean bytes, at 8 field positions) with the spec's StreamItems, whose 32-bit TLF machine is itself checked against an arbitrary-precision rule.", "5/C12",
               "TLC-judged trace validation against the TLA+ TLF/primitive rules (J_C12)", _NOTE_P),
@@ -181,9 +222,13 @@ MANIFEST_TEXT = {
               "and every cut point of 265+ frames; the antecedent is evaluated by the monitor with the spec's own decoder.", "5/C08", "TLC model checking + TLC-judged trace validation (J_C08)"),
     "C14": _t("TLC checks BoundaryFresh and IdleStepEq (an idle spec decoder is state-equal to a new one and answers every byte identically) and judges, for every boundary in the recorded streams, "
               "continuation-vs-fresh equality of the real decoder for 5 buffer configurations.", "5/C14", "TLC model checking + TLC-judged differential trace validation (J_C14)"),
-    "C15": _t("TLC judges the grouped observations of 11-14 real front-end configurations per stream with the normalisation the property allows (Events.Norm).", "5/C15", "TLC-judged differential trace validation (J_C15)"),
+    "C15": _t("TLC checks LoopsAgree (push+finalize, decode(), DecoderReader::next agree modulo Events.Norm) on the specification's three driving loops for every cut of the base streams, and judges the grouped observations of 11-14 real front-end configurations per stream with the normalisation the property allows (Events.Norm).", "5/C15", "TLC model checking of the front-end loops + TLC-judged differential trace validation (J_C15)"),
     "C16": _t("TLC checks CapacityRule/CapRespect/Resync on the decoder spec for every capacity 0..|m|+1 and judges the real fixed-buffer front-ends for every capacity 0..|m|+1 (exhaustive to 48) plus the 8 KiB default.",
               "5/C16", "TLC model checking + TLC-judged trace validation (J_C16)"),
+    "C18": _t("TLC checks that the array-with-stale-bytes representation refines the ideal bounded vector over all operation sequences up to the bound (Refines, SameResult, ViewOnly); every maximal "
+              "behaviour TLC generates is replayed into the real ArrayBuf<N> and, with the harness' own exhaustive and random histories, judged against ArrayBuf.IdealObs.", "5/C18",
+              "TLC model checking (refinement) + TLC-generated behaviours replayed into the code + TLC-judged trace validation (J_C18)",
+              "Trusted: TLC, ArrayBuf.tla's ideal vector, std slice Debug; capacities limited to the instantiations compiled into the harness."),
     "C17": _t("TLC checks the Tiles ghost invariant on the decoder spec (ADV, HIST with small capacities, NOISE) and judges the event lists of the real decoder/reader in both the overflow-checked and the wrapping build, "
               "including noise runs beyond 2^16.", "5/C17", "TLC model checking + TLC-judged trace validation (J_C17)"),
 }
